@@ -2,13 +2,15 @@ import CnbVerif.Base.Proto
 import CnbVerif.Model.Runtime
 import CnbVerif.Spec.RuntimeTable
 /-! Driver glue for C05: parse an abstract invocation, run the model, judge the implementation's observation by the
-decision table. Payloads: plan / launch / store are `Unit` (the harness checks the file holds the buildpack's payload),
-SBOM data is the position of the item in the result (`Nat`). -/
+decision table. Payloads: plan / launch / store are the variant of the test buildpack's payload (`Nat`: 0 normal, 1 empty /
+minimal document, 2 other shape — the harness recognises which one a file holds); SBOM data is `k` (normal data of the item
+at position `k`), `1000` (no bytes at all) or `2000 + k` (binary data of item `k`). -/
 namespace CnbVerif.DriverC05
 open CnbVerif CnbVerif.Runtime
 
-abbrev Inv := Invocation Unit Unit Unit Nat
-abbrev Out := Outcome Unit Unit Unit Nat
+abbrev Inv := Invocation Nat Nat Nat Nat
+abbrev Out := Outcome Nat Nat Nat Nat
+abbrev Res := BuildOk Nat Nat Nat
 
 def parseExe : String → Option Exe
   | "detect" => some .detect | "build" => some .build | "other" => some .other
@@ -50,25 +52,43 @@ def parsePre3 (s : String) : Option (Fmt → Pre) :=
 def parseFmt : String → Option Fmt
   | "cdx" => some .cdx | "spdx" => some .spdx | "syft" => some .syft | _ => none
 
-def parseDbeh : String → Option (DetectBeh Unit)
-  | "pass" => some .pass | "passplan" => some (.passPlan ()) | "fail" => some .fail | "err" => some .err | _ => none
+def parseDbeh : String → Option (DetectBeh Nat)
+  | "pass" => some .pass | "passplan" => some (.passPlan 0) | "passeplan" => some (.passPlan 1) | "passxplan" => some (.passPlan 2)
+  | "fail" => some .fail | "err" => some .err | _ => none
 
-/-- items of `ok:<items>` folded into a result; `k` is the position of the item -/
-def addItem (r : BuildOk Unit Unit Nat) (k : Nat) (item : String) : Option (BuildOk Unit Unit Nat) :=
-  if item = "launch" then some { r with launch := some () }
-  else if item = "store" then some { r with store := some () }
+/-- SBOM data of item `k`: normal, empty, binary -/
+def sbomData (k : Nat) : String → Option Nat
+  | "" => some k | "e" => some 1000 | "x" => some (2000 + k) | _ => none
+
+/-- items of `ok:<items>` applied like the calls on `BuildResultBuilder` (`launch` / `store` replace, SBOMs are pushed);
+`k` is the position of the item -/
+def addItem (r : Res) (k : Nat) (item : String) : Option Res :=
+  if item = "launch" then some { r with launch := some 0 }
+  else if item = "elaunch" then some { r with launch := some 1 }
+  else if item = "xlaunch" then some { r with launch := some 2 }
+  else if item = "store" then some { r with store := some 0 }
+  else if item = "estore" then some { r with store := some 1 }
+  else if item = "xstore" then some { r with store := some 2 }
   else match item.splitOn "." with
-    | ["b", f] => (parseFmt f).map (fun f => { r with bsboms := r.bsboms ++ [(f, k)] })
-    | ["l", f] => (parseFmt f).map (fun f => { r with lsboms := r.lsboms ++ [(f, k)] })
+    | [h, f] =>
+      if h.startsWith "b" then
+        match parseFmt f, sbomData k (h.drop 1).toString with
+        | some f, some d => some { r with bsboms := r.bsboms ++ [(f, d)] }
+        | _, _ => none
+      else if h.startsWith "l" then
+        match parseFmt f, sbomData k (h.drop 1).toString with
+        | some f, some d => some { r with lsboms := r.lsboms ++ [(f, d)] }
+        | _, _ => none
+      else none
     | _ => none
 
-def parseItems : List String → Nat → BuildOk Unit Unit Nat → Option (BuildOk Unit Unit Nat)
+def parseItems : List String → Nat → Res → Option Res
   | [], _, r => some r
   | it :: rest, k, r => match addItem r k it with
     | some r' => parseItems rest (k + 1) r'
     | none => none
 
-def parseBbeh (s : String) : Option (BuildBeh Unit Unit Nat) :=
+def parseBbeh (s : String) : Option (BuildBeh Nat Nat Nat) :=
   if s = "err" then some .err
   else if s = "layererr" then some .layerErr
   else if s.startsWith "ok:" then
@@ -118,14 +138,20 @@ def kindName : ErrKind → String
 
 def b01 (b : Bool) : String := if b then "1" else "0"
 
+/-- payload variant of plan / launch / store as the harness names it -/
+def varTok (v : Nat) : String := if v = 0 then "n" else if v = 1 then "e" else "x"
+
+def sbomTok (d : Nat) : String :=
+  if d < 1000 then "n" ++ toString d else if d = 1000 then "e" else "x" ++ toString (d - 2000)
+
 def render (i : Inv) (o : Out) : String :=
   let sb (pre : Fmt → Pre) (st : Fmt → FileOut Nat) : String :=
-    String.intercalate "," (Fmt.all.map (fun f => outTok (preTok (pre f)) (fun k => "n" ++ toString k) (st f)))
+    String.intercalate "," (Fmt.all.map (fun f => outTok (preTok (pre f)) sbomTok (st f)))
   "exit=" ++ toString o.exit ++ ";det=" ++ b01 o.detectRan ++ ";bld=" ++ b01 o.buildRan ++ ";onerr=" ++ toString o.onError ++
   ";kind=" ++ (match o.errKind with | some k => kindName k | none => "-") ++
-  ";plan=" ++ outTok (preTok i.planPre) (fun _ => "n") o.plan ++
-  ";launch=" ++ outTok (preTok i.launchPre) (fun _ => "n") o.launch ++
-  ";store=" ++ outTok (storePreTok i.storePre) (fun _ => "n") o.store ++
+  ";plan=" ++ outTok (preTok i.planPre) varTok o.plan ++
+  ";launch=" ++ outTok (preTok i.launchPre) varTok o.launch ++
+  ";store=" ++ outTok (storePreTok i.storePre) varTok o.store ++
   ";b=" ++ sb i.bPre o.bsbom ++ ";l=" ++ sb i.lPre o.lsbom
 
 -- ------------------------------------------------------------------ parsing the implementation's observation
@@ -135,12 +161,15 @@ def kv (key : String) (s : String) : Option String :=
   | _ => none
 
 /-- a raw state token relative to what was there before: the same ⇒ untouched; `n…` ⇒ written; otherwise other -/
-def parseOut (pre : String) (tok : String) : FileOut Unit :=
-  if tok = pre then .untouched else if tok = "n" then .written () else .other
+def parseOut (pre : String) (tok : String) : FileOut Nat :=
+  if tok = pre then .untouched else if tok = "n" then .written 0 else if tok = "e" then .written 1
+  else if tok = "x" then .written 2 else .other
 
 def parseOutN (pre : String) (tok : String) : FileOut Nat :=
   if tok = pre then .untouched
-  else if tok.startsWith "n" then match (tok.drop 1).toString.toNat? with | some k => .written k | none => .other
+  else if tok = "e" then .written 1000
+  else if tok.startsWith "n" then match (tok.drop 1).toString.toNat? with | some k => if k < 1000 then .written k else .other | none => .other
+  else if tok.startsWith "x" then match (tok.drop 1).toString.toNat? with | some k => .written (2000 + k) | none => .other
   else .other
 
 def parse3 (pre : Fmt → Pre) (s : String) : Option (Fmt → FileOut Nat) :=
